@@ -146,12 +146,14 @@ def criteria_facts(ns):
         out["log_dZ_ok"] = _close(ns.log_dZ, abs(ns.log_evidence - prev), F64)
     else:
         out["log_dZ_ok"] = bool(np.isinf(ns.log_dZ)) if ns.iteration == 0 else True
-    # standard error of the mean importance weight
-    Z = np.exp(lw)
-    Zhat = np.exp(np.longdouble(logZ))
-    u = np.sqrt(np.sum((Z - Zhat) ** 2) / (n * (n - 1)))
-    out["frac_err_ok"] = _close(float(ns.fractional_error), float(u / Zhat), 1e-7)
-    out["Z_err_ok"] = _close(float(ns.Z_err), float(np.exp(abs(u / Zhat))), 1e-7)
+    # standard error of the mean importance weight relative to the mean (scale free: from the ratios Z_i / Z)
+    rel = float(np.sqrt(np.sum((np.exp(lw - np.longdouble(logZ)) - 1) ** 2) / (n * (n - 1))))
+    out["frac_err_ok"] = _close(float(ns.fractional_error), rel, 1e-7)
+    # (the reported value is not a number although the definition gives one: exp(ln Z) is not representable)
+    ev_ = float(ns.state.evidence)
+    out["frac_err_nan_unrepresentable_evidence"] = bool(math.isnan(float(ns.fractional_error))
+                                                        and (ev_ == 0.0 or math.isinf(ev_)) and math.isfinite(rel))
+    out["Z_err_ok"] = _close(float(ns.Z_err), float(np.exp(rel)), 1e-7)
     # evidence above the threshold over the total
     thr = st.log_likelihood_threshold
     above = smp["logL"] >= thr
@@ -189,10 +191,8 @@ def result_facts_ins(fs, obs):
     m = np.max(lw)
     logZ = float(m + np.log(np.sum(np.exp(lw - m))) - np.log(n))
     f["logZ_ok"] = _close(fs.logZ, logZ, F64) and _close(ns.log_evidence, logZ, F64)
-    Z = np.exp(lw)
-    Zhat = np.exp(np.longdouble(logZ))
-    u = np.sqrt(np.sum((Z - Zhat) ** 2) / (n * (n - 1)))
-    f["logZ_err_ok"] = _close(fs.logZ_error, float(abs(u / Zhat)), 1e-7)
+    rel = float(np.sqrt(np.sum((np.exp(lw - np.longdouble(logZ)) - 1) ** 2) / (n * (n - 1))))
+    f["logZ_err_ok"] = _close(fs.logZ_error, rel, 1e-7)
     lpw = np.asarray(ns.state.log_posterior_weights, dtype=float)
     f["weights_ok"] = bool(lpw.size == n and _close(lpw, np.asarray(lw, dtype=float) - logZ, 1e-8))
     # sum of the draws of every level
